@@ -1,5 +1,6 @@
 import Litep2pVerif.Proofs.Manager.LedgerStep
 import Litep2pVerif.Proofs.Manager.Proto
+import Litep2pVerif.Proofs.Manager.Facade
 /-!
 # C05 — Every dial attempt ends in exactly one outcome and never wedges the peer
 
@@ -33,6 +34,13 @@ protocol draining its channel, and the two internal steps "the manager takes the
 "the blocked send is polled again" — in every order, for every number and order of protocols and
 every channel capacity. Ghost: `sent j` / `recv j` (what entered / left channel `j`), `done` (the
 fate of every processed command), `pall ps j` = what protocol `j` was sent or is still being sent.
+
+**Facade level** (`Model/Manager/Facade.lean`, lemmas `Proofs/Manager/Facade.lean`): `Litep2p::dial` /
+`dial_address` forward to the manager (`facadeDial`, `facadeDialAddress`); `facadeEvent` is the `match`
+of `Litep2p::next_event` over every `TransportEvent` shape (`none` = the `_ => {}` arm: dropped, poll
+again); `facadeEvents l` = what the user is handed for the events `l` the manager returned;
+`concluding g a` = the manager reports that conclude attempt `a`; `uoutcome g a` = how many user
+events they become.
 -/
 namespace Litep2pVerif.Props.C05
 open Litep2pVerif Litep2pVerif.Manager
@@ -422,6 +430,79 @@ example :
     (pstep (PS.init ⟨none, none⟩ 2 [0]) (.pdialAddr 0 [.ip4 1, .tcp 1, .p2p 1, .ws])).1.cmds = [] := by
   decide
 
+/-! ## The `Litep2p` facade -/
+
+/-- **Every concluded dial is reported to the user of `Litep2p`, exactly once.** `Litep2p::dial` and
+`Litep2p::dial_address` are the manager's `dial` / `dial_address` (so the ledger of accepted attempts is
+the ledger of the dials the facade accepted and started). In every reachable state, for every such
+attempt `a`:
+
+1. at the facade (`Litep2p::next_event` polled until the manager is idle) the attempt has exactly one
+   user event once the transport owes nothing for it, and none before: `uoutcome g a + inflight g a = 1`
+   — never silence, never a duplicate;
+2. that user event is one of `ConnectionEstablished` / `DialFailure` / `ListDialFailures` (never a
+   `ConnectionClosed`), and it carries exactly what the manager reported: peer and endpoint, or the
+   failed address and its error, or the whole `(address, error)` list — whatever its length, **the empty
+   list included** (`OpenFailure { errors: [] }`, the overall dial deadline of `TcpTransport::open`,
+   is `ListDialFailures { errors: [] }`, not silence);
+3. observation — outcomes that produce NO user event: none. Every event `TransportManager::next()` can
+   return (its four `return Some(..)` sites = the constructors of `Ev`) is translated; the `_ => {}`
+   arm of `next_event` only catches `PendingInboundConnection` / `ConnectionOpened`, which the manager
+   consumes itself and never returns;
+4. the facade is a one-to-one translation: as many user events as the manager returned events.
+
+(An accepted `dial` that starts no attempt of its own because one is in progress — `Ok` with
+`dialingInProgress` — is concluded by that attempt's single report: `addr_total` case 2,
+`protocol_dial_joins`.) -/
+theorem facade_reports_every_outcome {g : G} (h : Reach g) (a : Attempt) (ha : a ∈ g.ledger) :
+    ((∀ s p ch, facadeDial s p ch = dial s p ch) ∧ (∀ s ad, facadeDialAddress s ad = dialAddress s ad)) ∧
+    uoutcome g a + inflight g a = 1 ∧
+    (∀ e ∈ concluding g a,
+      ∃ u, facadeEvent e.toT = some u ∧ u.isDialOutcome = true ∧ u.carries e = true) ∧
+    (∀ e : Ev, (facadeEvent e.toT).isSome = true) ∧
+    (facadeEvents g.log).length = g.log.length := by
+  refine ⟨⟨fun _ _ _ => rfl, fun _ _ => rfl⟩, ?_, ?_, facadeEvent_toT_isSome, facadeEvents_length _⟩
+  · rw [uoutcome_eq_outcome]; exact dial_ledger h a ha
+  · intro e he
+    have hr : reports a e = 1 := by
+      have := (List.mem_filter.1 he).2
+      simpa using this
+    exact facade_of_report a e hr
+
+/-- Non-vacuity, and the history of the missed change: a dial by peer id whose `open` ends with an
+`OpenFailure` that carries NO per-address error (overall dial deadline). The manager concludes the
+attempt (peer `Disconnected`, nothing owed, nothing pending) and the user is handed
+`ListDialFailures { errors: [] }` — one report. -/
+example :
+    let g := runG (G.init ⟨none, none⟩)
+      [.addKnown 1 [[.ip4 1, .tcp 1, .p2p 1]], .dial 1 [], .evOpenFailure 0 []]
+    g.ledger = [⟨1, 0, 0⟩] ∧ g.owed = [] ∧ g.m.pending = [] ∧ stateOf g.m 1 = .disconnected none ∧
+    g.log = [.openFailure 0 []] ∧ facadeEvents g.log = [.listDialFailures []] ∧
+    uoutcome g ⟨1, 0, 0⟩ = 1 ∧ inflight g ⟨1, 0, 0⟩ = 0 := by
+  decide
+
+example : Reach (runG (G.init ⟨none, none⟩)
+      [.addKnown 1 [[.ip4 1, .tcp 1, .p2p 1]], .dial 1 [], .evOpenFailure 0 []]) :=
+  Reach.step _ (Reach.step _ (Reach.step _ (Reach.init _) (by decide)) (by decide)) (by decide)
+
+/-- Non-vacuity of the other shapes: a dial by address that fails (`DialFailure`), one that is
+established (`ConnectionEstablished`, followed by a `ConnectionClosed` that concludes nothing), an open
+failure with several errors; while an attempt is in flight the user has been told nothing. -/
+example :
+    let g := runG (G.init ⟨none, none⟩)
+      [.dialAddress [.ip4 1, .tcp 1, .p2p 1], .evDialFailure 0 [.ip4 1, .tcp 1, .p2p 1] .timeout,
+       .dialAddress [.ip4 2, .tcp 2, .p2p 2], .evEstablished 2 ⟨false, [.ip4 2, .tcp 2, .p2p 2], 1⟩ true,
+       .acceptResult 1 true, .evClosed 2 1,
+       .addKnown 3 [[.ip4 3, .tcp 3, .p2p 3], [.dns 3, .tcp 3, .p2p 3]], .dial 3 [],
+       .evOpenFailure 2 [([.ip4 3, .tcp 3, .p2p 3], .timeout), ([.dns 3, .tcp 3, .p2p 3], .address)],
+       .dialAddress [.ip4 1, .tcp 1, .p2p 1]]
+    facadeEvents g.log =
+      [.dialFailure [.ip4 1, .tcp 1, .p2p 1] .timeout, .established 2 ⟨false, [.ip4 2, .tcp 2, .p2p 2], 1⟩,
+       .closed 2 1,
+       .listDialFailures [([.ip4 3, .tcp 3, .p2p 3], .timeout), ([.dns 3, .tcp 3, .p2p 3], .address)]] ∧
+    g.ledger.map (uoutcome g) = [0, 1, 1, 1] ∧ g.ledger.map (inflight g) = [1, 0, 0, 0] := by
+  decide
+
 #print axioms no_dup_outcome
 #print axioms dial_ledger
 #print axioms quiescent_dialable
@@ -431,5 +512,6 @@ example :
 #print axioms protocol_dial_ledger
 #print axioms protocol_dial_joins
 #print axioms protocol_notified_despite_full_channel
+#print axioms facade_reports_every_outcome
 
 end Litep2pVerif.Props.C05
